@@ -343,6 +343,7 @@ VCHECK("c10.loss", 64)
         client.connectToServer(cfg);
         // run until quiescent: established, cut, or nothing moves
         bool sentRequest = false;
+        const size_t requestsOfEarlierAttempts = outstanding.size();
         for (int round = 0; round < 400; round++) {
             lb::settle(2, 30);
             main.pump();
@@ -433,6 +434,19 @@ VCHECK("c10.loss", 64)
             c.require(client.state() == QXmppClient::ConnectedState && client.isConnected(), "c10 uncut-attempt-does-not-connect", [&] {
                 return "the final, uncut attempt did not reach the connected state (state " + std::to_string(int(client.state())) + ")\n history: " + history;
             });
+            // requests outstanding from the earlier attempts: a session that is not a resumption of theirs cannot answer
+            // them any more, so by now each of them has completed (with an error) - only a resumed session may still hold them
+            {
+                const bool resumedNow = main.trace.find(" >resumed") != std::string::npos || second.trace.find(" >resumed") != std::string::npos;
+                c.label(resumedNow ? "final-session:resumed" : "final-session:new");
+                if (!resumedNow) {
+                    lb::settle(10, 200);
+                    for (size_t i = 0; i < requestsOfEarlierAttempts; i++)
+                        c.require(outstanding[i]->completions == 1, "c10 outstanding-request-left-pending on-new-session", "a request of an earlier attempt is still pending although the session that was established is not a resumption\n history: " + history);
+                    if (requestsOfEarlierAttempts > 0)
+                        c.label("final-session:new with earlier requests");
+                }
+            }
             // a fresh stream header came first on the connection that carried the session
             for (NegServer *s : { &main, &second })
                 for (auto &cp : s->srv.conns) {
